@@ -85,11 +85,15 @@ rm_cb(const char* p, const struct stat* sb, int flag, struct FTW* f)
 static void
 reset_tree(void)
 {
+  // (the tree walk of the C library does not cope with descriptor 0 being free: put it back while cleaning up)
+  const bool fd0_free = v_fd0_saved >= 0;
+  if (fd0_free) dup2(v_fd0_saved, 0);
   if (chdir("/")) {}
   nftw(scratch, rm_cb, 32, FTW_DEPTH | FTW_PHYS);
   mkdir(scratch, 0755);
   mkdir(work, 0755);
   if (chdir(work)) { perror("chdir"); exit(2); }
+  if (fd0_free) close(0);
 }
 
 static int
@@ -319,6 +323,38 @@ main(int argc, char** argv)
       const bool r1 = zix_file_equals(&va.base, "/proc/version", "A"), r2 = zix_file_equals(&va.base, "A", "/proc/version"),
                  r3 = zix_file_equals(&va.base, "B", "/proc/version"), r4 = zix_file_equals(&va.base, "/proc/version", "B");
       printf("eq=%d%d%d%d fds=%d\n", r1, r2, r3, r4, count_fds() == fds0);
+    } else if (!strcmp(tok[0], "fsops")) {
+      // the small creation / removal functions: each must report, and produce, what lstat / readlink then show
+      char res[64]; int k = 0;
+      struct stat sb, sb2;
+      #define ST(x) do { const int st_ = (int)(x); res[k++] = (char)('0' + (st_ > 9 ? 9 : st_)); } while (0)
+      ST(zix_create_directory("d"));   res[k++] = (!lstat("d", &sb) && S_ISDIR(sb.st_mode)) ? 'd' : '?';
+      ST(zix_create_directory("d"));                                    // EXISTS
+      ST(zix_create_directory(""));                                     // BAD_ARG
+      ST(zix_create_directory("nope/x"));                               // NOT_FOUND
+      chmod("d", 0750);
+      const mode_t old_umask = umask(022);
+      ST(zix_create_directory_like("e", "d")); res[k++] = (!lstat("e", &sb2) && S_ISDIR(sb2.st_mode) && (sb2.st_mode & 0777) == 0750) ? 'd' : '?';
+      umask(old_umask);
+      ST(zix_create_directory_like("g", "missing"));                    // NOT_FOUND, nothing created
+      res[k++] = lstat("g", &sb) ? '-' : '!';
+      ST(zix_create_directory_like("", "d"));                           // BAD_ARG
+      write_file("f", (const unsigned char*)"xyz", 3);
+      ST(zix_create_symlink("f", "l"));
+      char target[64]; const ssize_t tl = readlink("l", target, sizeof(target));
+      res[k++] = (tl == 1 && target[0] == 'f' && !lstat("l", &sb) && S_ISLNK(sb.st_mode)) ? 'l' : '?';
+      ST(zix_create_symlink("f", "l"));                                 // EXISTS
+      ST(zix_create_directory_symlink("d", "dl")); res[k++] = (!lstat("dl", &sb) && S_ISLNK(sb.st_mode) && !stat("dl", &sb2) && S_ISDIR(sb2.st_mode)) ? 'l' : '?';
+      ST(zix_create_hard_link("f", "h")); res[k++] = (!stat("f", &sb) && !stat("h", &sb2) && sb.st_ino == sb2.st_ino && sb.st_nlink == 2) ? 'h' : '?';
+      ST(zix_create_hard_link("missing", "h2"));                        // NOT_FOUND
+      ST(zix_remove("h")); res[k++] = lstat("h", &sb) ? '-' : '!';
+      ST(zix_remove("h"));                                              // NOT_FOUND
+      ST(zix_remove("e")); res[k++] = lstat("e", &sb) ? '-' : '!';       // an empty directory can be removed
+      mkdir("d/sub", 0755);
+      ST(zix_remove("d")); res[k++] = lstat("d", &sb) ? '!' : 'd';       // a directory that is not empty can not
+      ST(zix_remove("l")); res[k++] = (lstat("l", &sb) && !lstat("f", &sb2)) ? '-' : '!';   // removes the link, not its target
+      res[k] = 0;
+      printf("fsops=%s fds=%d\n", res, count_fds() == fds0);
     } else if (!strcmp(tok[0], "feqsys")) {
       // a real file that reports a size LARGER than its content: a sysfs attribute (st_size 4096, a few bytes) against a copy
       FILE* pv = fopen("/sys/devices/system/cpu/online", "rb");
